@@ -12,6 +12,7 @@ import TemprenModel.Model.Bind
 import TemprenModel.Model.Template
 import TemprenModel.Model.Printer
 import TemprenModel.Model.Pipeline
+import TemprenModel.Model.Report
 import TemprenModel.Model.Prompt
 import TemprenModel.Model.Gather
 import TemprenModel.Model.Render
@@ -537,6 +538,17 @@ def handle (line : String) : String :=
     | _, _, _ => "bad-op"
   | ["run", renamer, strategy, fault, tree, files, gens, answers] =>
     runModel renamer strategy fault tree files gens answers
+  | ["report", tree, events, paths] =>
+    -- the specification of a report (C05.applyReport): which of `paths` exist after replaying `events` on `tree`
+    let decEv := fun (f : String) =>
+      match f.splitOn ":" with
+      | [d, s, t] => do
+        let d ← decAPath d; let s ← decPure s; let t ← decPure t
+        pure ({ dir := d, src := s, dst := t, override := false } : Event)
+      | _ => none
+    match decListWith decEntry tree, decListWith decEv events, decListWith decAPath paths with
+    | some fs, some evs, some ps => encList (ps.map (fun p => encBool (C05.applyReport fs evs p)))
+    | _, _, _ => "bad-op"
   | ["prompt", line] =>
     match decStr line with
     | some l => (match promptParse l with | some r => encStr r | none => "none")
